@@ -364,6 +364,30 @@ def op_reject(w, ins):
             w.stats['rejected'] += 1
             w.stats['rejected:ctor_unknown'] += 1
         w.touch()
+    elif kind == 'decref_zero':
+        # one release too many: `decref` of a node whose count is 0 is
+        # documented to warn and to have no effect
+        if not raw:
+            return 'skip'
+        sn = w.snapshot(m)
+        zero = sorted(u for u, c in sn.refs.items() if c == 0 and u != 1)
+        if not zero:
+            return 'skip'
+        u = zero[ins.get('pos', 0) % len(zero)]
+        if ins.get('neg'):
+            u = -u
+        ok, v = call(w, g.raw.decref, u)
+        if not ok:
+            w.fail('exception:' + v[0], f'decref of a node with count 0 raised {v[1]} (documented: a warning, no effect)', owner_tags(w, 'C06'))
+        ev = seams.QUIET.drain()
+        warned = [e for e in ev if e[0] == 'warning' and e[1] == 'UserWarning']
+        rest = [e for e in ev if e not in warned]
+        seams.QUIET.events.extend(rest)
+        w.stats['decref_at_zero'] += 1
+        w.stats['decref_at_zero_warned'] += int(bool(warned))
+        w.cur_info['raised'] = 'UserWarning'
+        w.cur_info['expected_raise'] = True
+        w.touch()
     elif kind == 'swap_bad':
         # swap with arguments it must refuse
         if not raw:
@@ -410,7 +434,7 @@ def op_reject(w, ins):
 
 KINDS = ['var', 'let', 'quant', 'cube', 'formula_name', 'formula_syntax', 'formula_node',
          'foreign', 'unknown_node', 'operator', 'arity', 'level', 'order', 'undeclare', 'extension',
-         'load_clash', 'copy_missing_var', 'image_unknown_node', 'load_bad_pickle', 'swap_bad', 'bad_everywhere', 'bad_everywhere', 'ctor_unknown']
+         'load_clash', 'copy_missing_var', 'image_unknown_node', 'load_bad_pickle', 'swap_bad', 'bad_everywhere', 'bad_everywhere', 'ctor_unknown', 'decref_zero']
 
 
 def gen_reject(w, r, cfg):
